@@ -5,7 +5,10 @@ check("C09", "model_checking",
       "positions; all byte values x {raw, \\xHH, \\<c>, \\u{}} x {string, char, inside a string}; concatenations) and emits one case "
       "per literal; every case is rendered into a program that prints the literal, compiled by the real compiler and executed under "
       "lli; printed decimals (limbs -> decimal in Python), codes and lints are compared with the rule. Random literals in between are "
-      "compiled, run, recorded and validated by TLC (Trace_Literals).",
+      "compiled, run, recorded and validated by TLC (Trace_Literals). Also: every literal's value printed from 12 POSITIONS (constant, element, argument, "
+      "return value, member, operand, cast operand, index, array length ...), strings of 255..65537 bytes, 4-5 adjacent pieces, the literal as last token of the "
+      "file (4 endings), 700 / 69 000 literals in one module, the same literals in two modules (both file orders), out-of-range literals at the same "
+      "offsets of two modules (one L1142 per literal and module).",
       "Trusted: TLC, Literals.tla / PenneLex.tla / Wide.tla (NumValue = Wide!Parse and the decimal table are checked by TLC on every "
       "enumerated literal), print! of integers, lli, the limbs<->decimal conversion. Unconstrained cells and the genuine findings "
       "(false L1142 on i128::MIN, no L1142 in return values and if conditions, \\u{} in char literals) are in docs/notes-lex.md.",
